@@ -62,6 +62,11 @@ def _run_case(args):
 def _init_worker():
     import warnings
     warnings.filterwarnings("ignore")
+    try:
+        from astropy import log
+        log.setLevel("ERROR")
+    except Exception:
+        pass
 
 
 class Runner:
@@ -79,8 +84,8 @@ class Runner:
     def run_cases(self, cases):
         args = [(self.modname, c) for c in cases]
         nproc = int(os.environ.get("VERIF_JOBS", "0")) or (min(16, os.cpu_count() or 1) if self.tier == "thorough" else min(8, os.cpu_count() or 1))
+        _init_worker()
         if len(cases) < 40 or nproc <= 1:
-            _init_worker()
             return [_run_case(a) for a in args]
         with multiprocessing.get_context("fork").Pool(nproc, initializer=_init_worker) as pool:
             return pool.map(_run_case, args, chunksize=max(1, len(args) // (nproc * 8)))
